@@ -564,7 +564,7 @@ func TestVerifC04Damage(t *testing.T) {
 					mu.Unlock()
 					if sig != "" {
 						nfail.Add(1)
-						verifh.Violation(d.file+":"+sig, msg, map[string]any{"workload": w, "damage": d.String(), "seed": seed, "must": pred.Must})
+						c03Report(d.file+":", sig, msg, map[string]any{"workload": w, "damage": d.String(), "seed": seed, "must": pred.Must})
 					} else if got != nil && !openFailed {
 						// the code's known behaviour (exp) or the property's reference (must) exactly, modulo head chunks: drift only
 						_ = baseTree
